@@ -22,6 +22,7 @@ Proof.
   - intros pid it mn IHi IHm H. apply andb_true_iff in H. destruct H as [Hi Hm]. split; [apply IHi | apply IHm]; assumption.
   - intros k i H. destruct k; try exact I. exact H.
   - intros n x IHx H. apply andb_true_iff in H. destruct H as [Hx Hp]. split; [apply IHx; exact Hx | exact Hp].
+  - intros x IHx H. apply IHx. exact H.
   - intros x l IHx IHl H. cbn [forallb] in H. apply andb_true_iff in H. destruct H as [Hx Hl]. split; [apply IHx | apply IHl]; assumption.
 Qed.
 
@@ -48,6 +49,7 @@ Proof.
   - intros pid it mn IHi IHm H. apply andb_true_iff in H. destruct H as [Hi Hm]. split; [apply IHi | apply IHm]; assumption.
   - intros k i H. destruct k; try exact I; discriminate H.
   - intros n x _ H. discriminate H.
+  - intros x IHx H. apply IHx. exact H.
   - intros x l IHx IHl H. cbn [forallb] in H. apply andb_true_iff in H. destruct H as [Hx Hl]. split; [apply IHx | apply IHl]; assumption.
 Qed.
 Lemma js_okb_args_sound en l : forallb (js_okb en) l = true -> js_ok_args en l.
